@@ -378,8 +378,14 @@ def _post(S, m, rs, st_obj):
 
 
 @contract(CO + "Columns.column_widths", property="C19", inline=CINL, replayable=False, forall_range_check=False, ground_first=True, rounding_hints=True,
-          notes="cold cache only (_cache_maxcol is None): the early return of a cached list is C06's matter; integer weights; "
-                "children answer pack()/sizing() per the Widget protocol")
+          notes="cold cache only (_cache_maxcol is None): the early return of a cached list is C06's matter, unreachable here; "
+                "integer weights 1..2^16-1, at most 2^10 columns, min_width < 2^12, given sizes and dividechars < 2^22, maxcol < 2^24 "
+                "(float-as-rational reading of int(grow * weight / wtotal + 0.5), DESIGN 3.6; given >= 0 and min_width >= 0 are allowed, "
+                "wider than the statement's >= 1); children are Widgets answering pack()/sizing() per the Widget protocol; "
+                "assumed builtin models: sorted() of a list of int pairs (pyvc.builtins_model.sorted_model: a rearrangement by a bijection, "
+                "ascending, equal component totals) and frozenset & on a sizing set (cross-checked against CPython in static checks); "
+                "instantiated lemmas: prefix-sum-monotone, ascending-positive-suffix-sum, repeated-addition-closed-form, cascade-step; "
+                "KD(m) is defined by description (least k with room, or m)")
 class columns_column_widths:
     """With m = len(result) columns kept and k = KD(m) dropped on the left (the least k such that columns k..m-1
     and the dividers between them fit in maxcol, or m):  see the labelled clauses of `_post`."""
@@ -390,10 +396,7 @@ class columns_column_widths:
     static_checks = [_xcheck_sizing_and, _xcheck_sorted]
 
     def requires(s, a):
-        import os
-
-        dev = both(forall(0, n_items(s), lambda j: neg(item_at(s, j)[1][0] == "pack"))) if os.environ.get("COLW_NOPACK") else True
-        return both(colw_wf(s), 0 <= a.size[0], a.size[0] < DIMMAX, mk_bool(s._cache_maxcol.isnone), dev)
+        return both(colw_wf(s), 0 <= a.size[0], a.size[0] < DIMMAX, mk_bool(s._cache_maxcol.isnone))
 
     def ensures(old, s, a, result):
         S = Spec(old, a.size[0], a.focus)
@@ -406,9 +409,6 @@ class columns_column_widths:
         1: Loop(invariant=_loop1, shapes={"widths": WIDTHS, "weighted": WEIGHTED}),
         2: Loop(invariant=_loop2, shapes={"widths": WIDTHS, "weighted": WEIGHTED}),
     }
-    import os as _os
-    if _os.environ.get("COLW_DEV"):  # development aid: cut the exploration at the entry of loop <COLW_DEV>
-        loops[int(_os.environ["COLW_DEV"])] = Loop(invariant=lambda v: False)
 
 
 @lemma("ascending-positive-suffix-sum", property="C19")
